@@ -95,7 +95,7 @@ def gen_ldm_subs():
 # * `dbUnits : List (String × List (List String))` - for every method of DictionaryDataBase that touches the store
 #   (`self.database`, `self._next_id`, directly or by calling another method of the class): its UNITS in source order.
 #   A unit is one outermost `with self._lock:` section (its accesses, e.g. ["R database", "W database"], a call of an own
-#   method is "call <m>"), or - should it exist - one access made outside every section (["unlocked R database"]).
+#   method is "call <m>"), or - should it exist - one access made outside every section (["unlocked", "R database"]).
 #   A method that is ONE atomic step on the store has exactly one unit and no "unlocked" token;
 #   `FlexModel.Ldm.QueryConc` compiles every operation to as many atomic blocks as its method has units.
 #   Renaming locals, reordering statements inside the section, early returns inside the section do not change the fact;
@@ -136,7 +136,7 @@ class _DbAccesses(ast.NodeVisitor):
             if tok not in self.cur:
                 self.cur.append(tok)
         else:
-            self.units.append(["unlocked " + tok])
+            self.units.append(["unlocked", tok])
 
     def visit_With(self, node):
         is_lock = any(_self_attr_name(it.context_expr) == "_lock" for it in node.items)
